@@ -177,14 +177,37 @@ func runIncidents(c *run.Ctx, kinds []string) {
 		}
 		return true
 	}
+	ping := func(what string) *sim.Call {
+		cl := d.Go("Ping", func() error { return d.C.Ping(nil) })
+		if !w.WaitUntil(sim.StepTimeout, func() bool { return cl.Returned() }) {
+			wedged, report := w.Diagnose(1500 * time.Millisecond)
+			if !cl.Returned() {
+				if wedged {
+					dt := detail()
+					dt["report"] = report
+					c.Violate("probe-never-answered", fmt.Sprintf("after %s the client signals Online yet a Ping gets no answer through", what), dt)
+				} else {
+					c.Inconclusive("probe slow after " + what)
+				}
+				c.Spoiled()
+				return nil
+			}
+		}
+		return cl
+	}
 	probe := func(what string) bool {
-		cl := d.Do("Ping", func() error { return d.C.Ping(nil) })
+		cl := ping(what)
+		if cl == nil {
+			return false
+		}
 		if cl.Err != nil {
 			// a failure may still be in the pipeline; once more after online
 			if !awaitOnline(what) {
 				return false
 			}
-			cl = d.Do("Ping", func() error { return d.C.Ping(nil) })
+			if cl = ping(what); cl == nil {
+				return false
+			}
 		}
 		if cl.Err != nil {
 			c.Violate("probe-fails-after-recovery", fmt.Sprintf("after %s the client signals Online yet Ping returns %q", what, cl.Err), detail())
